@@ -1,0 +1,35 @@
+//go:build verif
+
+// Machine-checked contracts for package tagstore (comment-only; read by /verif/govc).
+// Property C32: a tag put writes the tag file (never overwriting an existing one), sets the persist
+// flag and only then hands the write-back task over; in write-through mode it succeeds only if the
+// synchronous execution of that task succeeded.
+//
+// Ghost state of the FileStore and persistedretry.Manager interfaces: contracts/externs/clients.spec.
+
+package tagstore
+
+// The tag file exists afterwards, whether it was created now or existed before (an existing tag
+// file is left as it is: CreateCacheFile fails with an IsExist error, which is tolerated).
+//@ func tagStore.writeTagToDisk
+//@   requires s != nil && s.fs != nil
+//@   modifies map s.fs.files
+//@   ensures kept: forall k string :: old(k in s.fs.files) ==> (k in s.fs.files)
+
+//@ func tagStore.writeThroughStrategy
+//@   requires s != nil && s.writeBackManager != nil
+//@   modifies map s.writeBackManager.synced
+//@   ensures synchronous: result == nil ==> (task in s.writeBackManager.synced)
+
+//@ func tagStore.asyncWriteBackStrategy
+//@   requires s != nil && s.writeBackManager != nil
+//@   modifies map s.writeBackManager.added
+//@   ensures queued: result == nil ==> (task in s.writeBackManager.added)
+
+// Put: the persist flag is set before the task is handed to the write-back strategy, and any error
+// before that point returns without handing anything over.
+//@ func tagStore.Put
+//@   requires s != nil && s.fs != nil && s.writeBackManager != nil && s.writeBackStrategy != nil
+//@   modifies *
+//@   assert persisted_before_handover: at field.writeBackStrategy#0 :: (tag in s.fs.persisted)
+//@   ensures persisted_on_success: result == nil ==> (tag in s.fs.persisted)
